@@ -353,3 +353,54 @@ class DefuzzifyContract(Contract):
         p.heap["OutputVariable.previous_value"] = z3.Store(H["OutputVariable.previous_value"], v, z3.If(en, H["Variable._value"][v], H["OutputVariable.previous_value"][v]))
         ex.writes |= {"Variable._value", "OutputVariable.previous_value"}
         return None
+
+
+# ---------------------------------------------------------------------------------------------------- loaders (C13; their bodies are C16's subject)
+parse_ant = z3.Function("parse_ant", Str, Ref, Ref)             # the expression tree Antecedent.load builds from (text, engine)
+ok_ant = z3.Function("ok_ant", Str, Ref, z3.BoolSort())         # whether that text is accepted for that engine
+parse_cons = z3.Function("parse_cons", Str, Ref, SeqRef)
+ok_cons = z3.Function("ok_cons", Str, Ref, z3.BoolSort())
+
+
+class AntecedentLoad(Contract):
+    """Antecedent.load(engine): unloads first; then either raises (SyntaxError/ValueError) leaving the antecedent unloaded, or stores the
+    expression parsed from the CURRENT text for THAT engine.  (load-atomicity and acceptance are obligations of C16.)"""
+    modifies = ("Antecedent.expression",)
+
+    def call(s, ex, p, recv, args, kwargs, node):
+        H = p.heap
+        a, eng = recv.r, args[0].r
+        txt = H["Antecedent.text"][a]
+        q = p.fork(); q.pc.append(z3.Not(ok_ant(txt, eng)))
+        q.heap = dict(H); q.heap["Antecedent.expression"] = z3.Store(H["Antecedent.expression"], a, NONE)
+        ex.raised.append((q, "SyntaxError"))
+        p.pc += [ok_ant(txt, eng), parse_ant(txt, eng) != NONE]
+        p.heap = dict(H); p.heap["Antecedent.expression"] = z3.Store(H["Antecedent.expression"], a, parse_ant(txt, eng))
+        ex.writes.add("Antecedent.expression")
+        return None
+
+
+class ConsequentLoad(Contract):
+    modifies = ("Consequent.conclusions",)
+
+    def call(s, ex, p, recv, args, kwargs, node):
+        H = p.heap
+        c, eng = recv.r, args[0].r
+        txt = H["Consequent.text"][c]
+        q = p.fork(); q.pc.append(z3.Not(ok_cons(txt, eng)))
+        q.heap = dict(H); q.heap["Consequent.conclusions"] = z3.Store(H["Consequent.conclusions"], c, z3.Empty(SeqRef))
+        ex.raised.append((q, "SyntaxError"))
+        p.pc += [ok_cons(txt, eng), z3.Length(parse_cons(txt, eng)) > 0]
+        p.heap = dict(H); p.heap["Consequent.conclusions"] = z3.Store(H["Consequent.conclusions"], c, parse_cons(txt, eng))
+        ex.writes.add("Consequent.conclusions")
+        return None
+
+
+def fresh_rule_state(H0, H, r, eng):
+    """rule r in heap H is exactly as a fresh load against engine `eng` leaves it: deactivated, and loaded from its current texts iff they are
+    accepted (an unaccepted rule is left unloaded)"""
+    a, c = H0["Rule.antecedent"][r], H0["Rule.consequent"][r]
+    ta, tc = H0["Antecedent.text"][a], H0["Consequent.text"][c]
+    return z3.And(H["Rule.activation_degree"][r] == x2xr(xr.const(0.0)), z3.Not(H["Rule.triggered"][r]),
+                  H["Antecedent.expression"][a] == z3.If(ok_ant(ta, eng), parse_ant(ta, eng), NONE),
+                  H["Consequent.conclusions"][c] == z3.If(z3.And(ok_ant(ta, eng), ok_cons(tc, eng)), parse_cons(tc, eng), z3.Empty(SeqRef)))
